@@ -272,9 +272,68 @@ def threeway(rng, undeclared=False):
     return _finish(rng, len(ids), seats, [], [], lines)
 
 
+_EXACT_P = {'cfer': 5, 'cfer-batch': 5, 'wigm-prf': 4, 'wigm-prf-batch': 4, 'scotland': 5, 'mpls': 4, 'wigm': 4}
+_EXACT_INT = ('scotland', 'mpls')
+
+
+def exact_threshold(rng, rule='cfer', undeclared=False):
+    """a candidate lands *exactly* on a fractional threshold through a surplus transfer: first preferences b plus k
+    ballots at transfer value tv give b + k*tv == quota, to the last digit of the rule's fixed-point arithmetic (for
+    wigm the case only bites at precision 4).  Separates `>=` from `>` at the election step."""
+    import math
+    S = 10 ** _EXACT_P.get(rule, 5)
+    for _ in range(150):
+        s = rng.randint(1, 3); n = rng.randint(30, 500)
+        T = (n // (s + 1) + 1) * S if rule in _EXACT_INT else (n * S) // (s + 1) + 1
+        lo = T // S + 1
+        if lo >= n:
+            continue
+        avals = list(range(lo, n)); rng.shuffle(avals)
+        for a in avals:
+            sur = a * S - T; tv = sur // a
+            if tv <= 0:
+                continue
+            g = math.gcd(tv, S)
+            if T % g:
+                continue
+            m = S // g
+            k = ((T // g) * pow(tv // g, -1, m)) % m if m > 1 else 1
+            if k == 0:
+                k = m
+            if k > a:
+                continue
+            rest = T - k * tv
+            if rest < 0 or rest % S:
+                continue
+            b = rest // S
+            if a + b > n:
+                continue
+            extra = rng.randint(1, 3)
+            nc = s + 1 + extra
+            ids = list(range(1, nc + 1)); rng.shuffle(ids)
+            A, B, others = ids[0], ids[1], ids[2:]
+            lines = [(k, [A, B] + rng.sample(others, rng.randint(0, len(others))))]
+            if a - k:
+                lines.append((a - k, [A] + rng.sample(others, rng.randint(0, min(1, len(others))))))
+            if b:
+                lines.append((b, [B] + rng.sample(others, rng.randint(0, len(others)))))
+            left = n - a - b
+            for c in others:
+                if left <= 0:
+                    break
+                mlt = rng.randint(0, min(left, max(1, T // S - 1)))
+                if mlt:
+                    lines.append((mlt, [c] + rng.sample([x for x in ids if x != c], rng.randint(0, 2)))); left -= mlt
+            if left > 0:
+                lines.append((left, [rng.choice(others)]))
+            rng.shuffle(lines)
+            return _finish(rng, nc, s, [], [], lines)
+    return plain(rng)
+
+
 FAMILIES = {
     'plain': plain, 'on_quota': on_quota, 'symmetric': symmetric, 'few_supported': few_supported,
-    'chains': chains, 'sure_losers': sure_losers, 'big': big, 'crossover': crossover, 'blocs': blocs, 'threeway': threeway,
+    'chains': chains, 'sure_losers': sure_losers, 'big': big, 'crossover': crossover, 'blocs': blocs, 'threeway': threeway, 'exact_threshold': exact_threshold,
 }
 
 
@@ -291,6 +350,8 @@ def profile(rng, rule, families=None):
         return f, coalitions(rng)
     if f == 'majority':
         return f, majority(rng)
+    if f == 'exact_threshold':
+        return f, exact_threshold(rng, rule)
     if f == 'plain':
         return f, plain(rng, undeclared=und)
     return f, FAMILIES[f](rng, undeclared=und)
